@@ -419,3 +419,29 @@ Definition decode_utf8 (d : bytes) : bytes :=
 
 Definition decode_of (utf8 : bool) : bytes -> bytes :=
   if utf8 then decode_utf8 else decode_w1252.
+
+(* ---------------------------------------------------------------- specification of the content
+   of an object's JSON, from its fields [l] (TapeWf object grammar), the serialized value [vals]
+   of each field in document order, and the serialized remainder *)
+Definition wrap_group (js : list json) : json := match js with [x] => x | _ => JArr js end.
+
+(* the serialized values of the fields with raw key [k], in document order *)
+Definition select_vals (k : bytes) (l : list field) (vals : list json) : list json :=
+  map snd (filter (fun p => beqb (field_kb (fst p)) k) (combine l vals)).
+
+Definition rem_entry (rem : option json) : list (bytes * json) :=
+  match rem with Some j => [(s_remainder, j)] | None => [] end.
+Definition rem_list (rem : option json) : list json :=
+  match rem with Some j => [j] | None => [] end.
+
+Definition content_tree (dec : bytes -> bytes) (mode : dupmode) (l : list field) (vals : list json) (rem : option json) : json :=
+  match mode with
+  | Preserve =>
+      JObj (combine (map (fun f => key_string dec (f_key f)) l) vals ++ rem_entry rem)
+  | Group =>
+      JObj (map (fun f => (key_string dec (f_key f), wrap_group (select_vals (field_kb f) l vals))) (first_fields [] l)
+            ++ rem_entry rem)
+  | KeyValuePairs =>
+      JObj [(s_type, JStr s_obj);
+            (s_val, JArr (map (fun p => JArr [JStr (key_string dec (f_key (fst p))); snd p]) (combine l vals) ++ rem_list rem))]
+  end.
